@@ -1,4 +1,4 @@
-import DFV.Lemmas.Transform
+import DFV.Lemmas.MeshInv
 /-!
 # C13 — geometric invariants and in-place == copy after any transformation sequence
 
@@ -14,7 +14,8 @@ open DFV DFV.T
 accept and end in the same state `T` (which satisfies the invariant; the in-place form
 returns the receiver, the copying form leaves it untouched), or both forms reject. -/
 theorem step_forms (r : Region) (hr : r.Inv) (op : Op) :
-    (∃ T : Region, T.Inv ∧ stepR r (op.withInplace true) = .ok (T, T) ∧ stepR r (op.withInplace false) = .ok (r, T)) ∨
+    (∃ T : Region, T.Inv ∧ T.ndim = r.ndim ∧ T.dims = r.dims ∧ stepR r (op.withInplace true) = .ok (T, T) ∧
+        stepR r (op.withInplace false) = .ok (r, T)) ∨
     ((∃ e, stepR r (op.withInplace true) = .error e) ∧ (∃ e, stepR r (op.withInplace false) = .error e)) := by
   cases op with
   | translate v i =>
@@ -22,7 +23,7 @@ theorem step_forms (r : Region) (hr : r.Inv) (op : Op) :
     by_cases hv : v.length = r.ndim
     · left
       obtain ⟨h1, h2⟩ := translate_forms r hr v hv
-      refine ⟨_, ?_, h1, h2⟩
+      refine ⟨_, ?_, target_ndim _ _ _ _, rfl, h1, h2⟩
       apply target_inv r hr _ _ _ hr.2.2.2.1
       intro a ha; have := hr.2.2.2.2.2 a ha; intro h; linarith
     · right
@@ -34,7 +35,7 @@ theorem step_forms (r : Region) (hr : r.Inv) (op : Op) :
       · by_cases hne : ∀ a, a < r.ndim → scaleLo r f (ref.getD r.center) a ≠ scaleHi r f (ref.getD r.center) a
         · left
           obtain ⟨h1, h2⟩ := scale_forms_ok r hr f ref hf href hne
-          exact ⟨_, target_inv r hr _ _ _ hr.2.2.2.1 hne, h1, h2⟩
+          exact ⟨_, target_inv r hr _ _ _ hr.2.2.2.1 hne, target_ndim _ _ _ _, rfl, h1, h2⟩
         · right
           have : ∃ a, a < r.ndim ∧ scaleLo r f (ref.getD r.center) a = scaleHi r f (ref.getD r.center) a := by
             by_contra hc
@@ -66,7 +67,7 @@ theorem step_forms (r : Region) (hr : r.Inv) (op : Op) :
             have hd : r.dims.length = r.ndim := hr.2.2.1
             have l1 : i1 < r.ndim := hd ▸ dim2index_lt r a1 i1 h1
             have l2 : i2 < r.ndim := hd ▸ dim2index_lt r a2 i2 h2
-            refine ⟨_, target_inv r hr _ _ _ ?_ (rotCoord_ne r hr _ i1 i2 k l1 l2), f1, f2⟩
+            refine ⟨_, target_inv r hr _ _ _ ?_ (rotCoord_ne r hr _ i1 i2 k l1 l2), target_ndim _ _ _ _, rfl, f1, f2⟩
             rw [rotUnits_length]; exact hr.2.2.2.1
       · right
         exact ⟨rot_forms_err r a1 a2 k ref (Or.inr (Or.inl href)) true,
@@ -78,7 +79,7 @@ theorem withInplace_self (op : Op) : op.withInplace op.inplace = op := by
 /-- Every accepted step preserves the invariant — of the returned object and of the receiver. -/
 theorem step_inv (r : Region) (hr : r.Inv) (op : Op) (recv ret : Region)
     (h : stepR r op = .ok (recv, ret)) : recv.Inv ∧ ret.Inv := by
-  rcases step_forms r hr op with ⟨T, hT, h1, h2⟩ | ⟨⟨e1, h1⟩, ⟨e2, h2⟩⟩
+  rcases step_forms r hr op with ⟨T, hT, _, _, h1, h2⟩ | ⟨⟨e1, h1⟩, ⟨e2, h2⟩⟩
   · cases hb : op.inplace
     · have : op = op.withInplace false := by rw [← hb, withInplace_self]
       rw [this, h2] at h
@@ -103,7 +104,7 @@ theorem inplace_eq_copy (r : Region) (hr : r.Inv) (op : Op) :
     (∀ recv ret, stepR r (op.withInplace false) = .ok (recv, ret) →
         recv = r ∧ stepR r (op.withInplace true) = .ok (ret, ret)) ∧
     ((∃ e, stepR r (op.withInplace true) = .error e) ↔ (∃ e, stepR r (op.withInplace false) = .error e)) := by
-  rcases step_forms r hr op with ⟨T, _, h1, h2⟩ | ⟨⟨e1, h1⟩, ⟨e2, h2⟩⟩
+  rcases step_forms r hr op with ⟨T, _, _, _, h1, h2⟩ | ⟨⟨e1, h1⟩, ⟨e2, h2⟩⟩
   · refine ⟨?_, ?_, ?_⟩
     · intro recv ret h; rw [h1] at h; injection h with h; injection h with ha hb
       subst ha; subst hb; exact ⟨rfl, h2⟩
@@ -147,7 +148,7 @@ theorem history_forms_agree (r : Region) (hr : r.Inv) (ops : List Op) (flags : L
             stepR r op = .ok (if op.inplace then T else r, T)) ∨
           ((∃ e, stepR r (op.withInplace b') = .error e) ∧ (∃ e, stepR r op = .error e)) := by
         intro b'
-        rcases step_forms r hr op with ⟨T, hT, h1, h2⟩ | ⟨⟨e1, h1⟩, ⟨e2, h2⟩⟩
+        rcases step_forms r hr op with ⟨T, hT, _, _, h1, h2⟩ | ⟨⟨e1, h1⟩, ⟨e2, h2⟩⟩
         · left
           refine ⟨T, hT, ?_, ?_⟩
           · cases b' <;> simp [h1, h2]
@@ -166,6 +167,205 @@ theorem history_forms_agree (r : Region) (hr : r.Inv) (ops : List Op) (flags : L
       rcases key b with ⟨T, hT, k1, k2⟩ | ⟨⟨e1, k1⟩, ⟨e2, k2⟩⟩
       · rw [k1, k2]; exact ih T hT bs hl'
       · rw [k1, k2]; exact ih r hr bs hl'
+
+/-! ## mesh level -/
+
+/-- a region step keeps the number of dimensions and the dimension names -/
+theorem stepR_ndim (r : Region) (hr : r.Inv) (op : Op) (recv ret : Region) (h : stepR r op = .ok (recv, ret)) :
+    ret.Inv ∧ ret.ndim = r.ndim ∧ ret.dims = r.dims := by
+  rcases step_forms r hr op with ⟨T, hT, hn, hd, h1, h2⟩ | ⟨⟨e1, h1⟩, ⟨e2, h2⟩⟩
+  · cases hb : op.inplace
+    · have : op = op.withInplace false := by rw [← hb, withInplace_self]
+      rw [this, h2] at h
+      injection h with h; injection h with _ hb'
+      subst hb'; exact ⟨hT, hn, hd⟩
+    · have : op = op.withInplace true := by rw [← hb, withInplace_self]
+      rw [this, h1] at h
+      injection h with h; injection h with _ hb'
+      subst hb'; exact ⟨hT, hn, hd⟩
+  · cases hb : op.inplace
+    · have : op = op.withInplace false := by rw [← hb, withInplace_self]
+      rw [this, h2] at h; cases h
+    · have : op = op.withInplace true := by rw [← hb, withInplace_self]
+      rw [this, h1] at h; cases h
+
+/-- assembling a mesh invariant from its parts -/
+theorem mesh_inv_of (m : Mesh) (hr : m.region.Inv) (hl : m.n.length = m.region.ndim) (hp : ∀ k ∈ m.n, 0 < k) : m.Inv :=
+  ⟨hr, hl, fun a ha => nAt_pos_of_mem m hl hp a ha⟩
+
+/-- Mesh level: every accepted step (either form) leaves receiver and result with
+`pmin < pmax`, unique names, and positive counts, one per direction; translation and
+scaling keep `n`, a quarter turn swaps the two counts exactly for odd `k`. -/
+theorem stepM_inv (m : Mesh) (hm : m.Inv) (op : Op) (recv ret : Mesh) (h : stepM m op = .ok (recv, ret)) :
+    recv.Inv ∧ ret.Inv ∧
+    (match op with
+     | .rotate90 a1 a2 k _ _ => ∃ i1 i2, m.region.dim2index a1 = .ok i1 ∧ m.region.dim2index a2 = .ok i2 ∧ ret.n = rotN m.n i1 i2 k
+     | _ => ret.n = m.n) := by
+  obtain ⟨hr, hl, hp⟩ := hm
+  have hmem := mem_pos_of_nAt m hl hp
+  cases op with
+  | translate v i =>
+    simp only [stepM] at h
+    split at h
+    · cases h
+    · cases h
+    · rename_i x r' subs' hreg hsub
+      obtain ⟨hri, hrn, _⟩ := stepR_ndim m.region hr (.translate v i) _ r' hreg
+      cases i
+      · simp only [Bool.false_eq_true, if_false] at h
+        split at h
+        · cases h
+        · rename_i m' hm'
+          injection h with h; injection h with ha hb
+          subst ha; subst hb
+          obtain ⟨e1, e2, e3, e4⟩ := mkMesh_ok _ _ _ _ _ hm'
+          exact ⟨⟨hr, hl, hp⟩, mesh_inv_of _ (e1 ▸ hri) (by rw [e1, e2]; exact e3) (by rw [e2]; exact e4), e2⟩
+      · simp only [if_true] at h
+        injection h with h; injection h with ha hb
+        subst ha; subst hb
+        have hi : ({ m with region := r', subs := subs' } : Mesh).Inv :=
+          mesh_inv_of _ hri (by show m.n.length = r'.ndim; rw [hrn]; exact hl) hmem
+        exact ⟨hi, hi, rfl⟩
+  | scale f ref i =>
+    simp only [stepM] at h
+    split at h
+    · cases h
+    · cases h
+    · rename_i x r' subs' hreg hsub
+      obtain ⟨hri, hrn, _⟩ := stepR_ndim m.region hr (.scale f ref i) _ r' hreg
+      cases i
+      · simp only [Bool.false_eq_true, if_false] at h
+        split at h
+        · cases h
+        · rename_i m' hm'
+          injection h with h; injection h with ha hb
+          subst ha; subst hb
+          obtain ⟨e1, e2, e3, e4⟩ := mkMesh_ok _ _ _ _ _ hm'
+          exact ⟨⟨hr, hl, hp⟩, mesh_inv_of _ (e1 ▸ hri) (by rw [e1, e2]; exact e3) (by rw [e2]; exact e4), e2⟩
+      · simp only [if_true] at h
+        injection h with h; injection h with ha hb
+        subst ha; subst hb
+        have hi : ({ m with region := r', subs := subs' } : Mesh).Inv :=
+          mesh_inv_of _ hri (by show m.n.length = r'.ndim; rw [hrn]; exact hl) hmem
+        exact ⟨hi, hi, rfl⟩
+  | rotate90 a1 a2 k ref i =>
+    simp only [stepM] at h
+    split at h
+    · cases h
+    · cases h
+    · cases h
+    · cases h
+    · rename_i x r' subs' i1 i2 hreg hsub hi1 hi2
+      obtain ⟨hri, hrn, _⟩ := stepR_ndim m.region hr (.rotate90 a1 a2 k ref i) _ r' hreg
+      have hd : m.region.dims.length = m.region.ndim := hr.2.2.1
+      have l1 : i1 < m.n.length := by rw [hl, ← hd]; exact dim2index_lt _ _ _ hi1
+      have l2 : i2 < m.n.length := by rw [hl, ← hd]; exact dim2index_lt _ _ _ hi2
+      have hrotlen : (rotN m.n i1 i2 k).length = m.n.length := by unfold rotN; split <;> simp [swapAt_length]
+      have hrotpos : ∀ q ∈ rotN m.n i1 i2 k, 0 < q := by
+        unfold rotN; split
+        · exact mem_swapAt_pos m.n i1 i2 hmem l1 l2
+        · exact hmem
+      cases i
+      · simp only [Bool.false_eq_true, if_false] at h
+        split at h
+        · cases h
+        · rename_i m' hm'
+          injection h with h; injection h with ha hb
+          subst ha; subst hb
+          obtain ⟨e1, e2, e3, e4⟩ := mkMesh_ok _ _ _ _ _ hm'
+          exact ⟨⟨hr, hl, hp⟩, mesh_inv_of _ (e1 ▸ hri) (by rw [e1, e2]; exact e3) (by rw [e2]; exact e4),
+            ⟨i1, i2, hi1, hi2, e2⟩⟩
+      · simp only [if_true] at h
+        injection h with h; injection h with ha hb
+        subst ha; subst hb
+        have hi : ({ m with region := r', n := rotN m.n i1 i2 k, subs := subs' } : Mesh).Inv :=
+          mesh_inv_of _ hri (by show (rotN m.n i1 i2 k).length = r'.ndim; rw [hrotlen, hrn]; exact hl) hrotpos
+        exact ⟨hi, hi, ⟨i1, i2, hi1, hi2, rfl⟩⟩
+
+/-- … hence after ANY finite history of mesh transformations -/
+theorem reachable_inv_mesh (m : Mesh) (hm : m.Inv) (ops : List Op) : (runM m ops).Inv := by
+  induction ops generalizing m with
+  | nil => exact hm
+  | cons op ops ih =>
+    simp only [runM]
+    cases h : stepM m op with
+    | error e => exact ih m hm
+    | ok p =>
+      obtain ⟨recv, ret⟩ := p
+      exact ih ret (stepM_inv m hm op recv ret h).2.1
+
+
+/-! ## field level -/
+
+/-- Field level: every accepted step keeps the mesh invariant and keeps the value and
+validity arrays in the shape of the (possibly permuted) cell counts. -/
+theorem stepF_inv (f : Fld) (hf : FldInv f) (op : Op) (recv ret : Fld) (h : stepF f op = .ok (recv, ret)) :
+    FldInv recv ∧ FldInv ret := by
+  obtain ⟨hm, hd, hv⟩ := hf
+  cases op with
+  | translate v i =>
+    simp only [stepF] at h
+    split at h
+    · cases h
+    · rename_i x m' hm'
+      obtain ⟨_, hret, hn⟩ := stepM_inv f.mesh hm _ _ m' hm'
+      simp only at hn
+      injection h with h; injection h with ha hb
+      subst ha; subst hb
+      have hi : FldInv { f with mesh := m' } := ⟨hret, by show f.data.shape = m'.n; rw [hn]; exact hd,
+        by show f.valid.shape = m'.n; rw [hn]; exact hv⟩
+      cases i
+      · exact ⟨⟨hm, hd, hv⟩, hi⟩
+      · exact ⟨hi, hi⟩
+  | scale s ref i =>
+    simp only [stepF] at h
+    split at h
+    · cases h
+    · rename_i x m' hm'
+      obtain ⟨_, hret, hn⟩ := stepM_inv f.mesh hm _ _ m' hm'
+      simp only at hn
+      injection h with h; injection h with ha hb
+      subst ha; subst hb
+      have hi : FldInv { f with mesh := m' } := ⟨hret, by show f.data.shape = m'.n; rw [hn]; exact hd,
+        by show f.valid.shape = m'.n; rw [hn]; exact hv⟩
+      cases i
+      · exact ⟨⟨hm, hd, hv⟩, hi⟩
+      · exact ⟨hi, hi⟩
+  | rotate90 a1 a2 k ref i =>
+    simp only [stepF, rotate90F] at h
+    split at h
+    · cases h
+    · cases h
+    · cases h
+    · rename_i x m' i1 i2 hm' hi1 hi2
+      obtain ⟨_, hret, j1, j2, hj1, hj2, hn⟩ := stepM_inv f.mesh hm _ _ m' hm'
+      rw [hi1] at hj1; rw [hi2] at hj2
+      injection hj1 with hj1; injection hj2 with hj2
+      subst hj1; subst hj2
+      have hshape : ∀ {α} (a : NDA α), a.shape = f.mesh.n → (rot90 a i1 i2 k).shape = m'.n := by
+        intro α a ha
+        rw [rot90_shape, ha, hn]; rfl
+      split at h
+      · split at h
+        · rename_i c1 c2 _ _
+          injection h with h; injection h with ha hb
+          subst ha; subst hb
+          have hi : FldInv { f with mesh := m', data := (rot90 f.data i1 i2 k).map fun v => rotVec v c1 c2 k,
+                                     valid := rot90 f.valid i1 i2 k } :=
+            ⟨hret, by show (rot90 f.data i1 i2 k).shape = m'.n; exact hshape _ hd, hshape _ hv⟩
+          cases i
+          · exact ⟨⟨hm, hd, hv⟩, hi⟩
+          · refine ⟨?_, hi⟩
+            exact ⟨hret, by show (rot90 f.data i1 i2 k).shape = m'.n; exact hshape _ hd, hshape _ hv⟩
+        · cases h
+      · injection h with h; injection h with ha hb
+        subst ha; subst hb
+        have hi : FldInv { f with mesh := m', data := rot90 f.data i1 i2 k, valid := rot90 f.valid i1 i2 k } :=
+          ⟨hret, hshape _ hd, hshape _ hv⟩
+        cases i
+        · exact ⟨⟨hm, hd, hv⟩, hi⟩
+        · exact ⟨hi, hi⟩
+
 
 /-! ## each step realises its documented affine map -/
 
